@@ -3,7 +3,9 @@ from .common import fams, generic_replay, PATTERNS
 
 
 def run(tier):
-    return scans.scan_check("C03", ("EOS.",), {"EOS"}, fams({'EOS'}, extra=('EHEP','EPpiston','Mader','BBNoh','RiemannGen','RiemannJWL','RMTV','Guderley')), tier, require_patterns=PATTERNS)
+    f = fams({'EOS'}, extra=('EHEP','EPpiston','Mader','BBNoh','SDRZ','RiemannGen','RiemannJWL','RMTV','Guderley'))
+    f["RadShock"] = ("radshock", {"EOS"})          # the thermodynamic fields returned by the public call
+    return scans.scan_check("C03", ("EOS.",), {"EOS"}, f, tier, require_patterns=PATTERNS)
 
 
 def replay(path):
